@@ -24,6 +24,7 @@ ASSUMPTIONS = [
 ]
 
 _BY_TYPE = None
+PROJECT_LEVEL = ("pfield", "cell", "pattr", "pclear", "pbulk", "praw")
 
 
 def key_of_type(type_string):
@@ -68,7 +69,75 @@ def edits_for_module(mod, seed):
         return [{"k": "attr", "n": n, "v": v} for n, (_a, vals) in deviate.COMMON_ATTRS.items() if n != "name" for v in vals[:2]] + \
                [{"k": "flag", "n": "mute"}, {"k": "ip_links", "which": "in_links"}][:1]
     devs = deviate.module_devs(tkey, seed, spikes="few", opt8="few")
+    if tkey == "Sampler":
+        devs = devs + sampler_edits(mod)
     return devs + [o for o in c17.inplace_ops(tkey) if o["k"] not in ("ip_links", "ip_ctlvalues", "ip_optvalues", "mm_uvalue")]
+
+
+SMP_FIELDS = {
+    "volume": [0, 33, 255], "finetune": [-128, 5, 127], "panning": [-128, 7, 127], "relative_note": [-128, 3, 127],
+    "loop_start": [0, 9, 2**32 - 1], "loop_len": [0, 11, 2**32 - 1], "start_pos": [0, 13, 2**32 - 1],
+    "rate": [8000, 44100, 2**32 - 1], "name": [b"", b"edited", b"n" * 22], "loop_sustain": [False, True],
+    "loop_type": [0, 1, 2], "data": [b"", bytes(range(64))], "format": [1, 2, 4], "channels": [0, 8],
+}
+ENV_FIELDS = {"enable": [False, True], "sustain": [False, True], "loop": [False, True], "ctl_index": [0, 9, 255],
+              "gain_pct": [0, 50, 255], "velocity": [0, 50, 255], "sustain_point": [0, 2, 255],
+              "loop_start_point": [0, 1, 255], "loop_end_point": [0, 3, 255]}
+
+
+def sampler_edits(mod):
+    out = []
+    for i, smp in enumerate(mod.samples):
+        if smp is None:
+            continue
+        for f, vals in SMP_FIELDS.items():
+            for v in vals:
+                out.append({"k": "smp_field", "i": i, "n": f, "v": v})
+        # combinations of two settings on one sample
+        for lt in (0, 1, 2):
+            for sus in (False, True):
+                out.append({"k": "smp_loop", "i": i, "n": "loop", "lt": lt, "sus": sus})
+        out.append({"k": "smp_drop", "i": i, "n": "drop"})
+    from checks import c16
+
+    for en in c16.ENVS:
+        lo, hi = c16.env_range(en)
+        for f, vals in ENV_FIELDS.items():
+            for v in vals:
+                out.append({"k": "env_field", "e": en, "n": f, "v": v})
+        out.append({"k": "env_field", "e": en, "n": "points", "v": [[0, lo], [5, hi], [9, (lo + hi) // 2]]})
+        out.append({"k": "env_field", "e": en, "n": "points", "v": []})
+    for i in (0, 1, 60, 95, 96, 118):
+        for v in (0, 1, 2, 127):
+            out.append({"k": "map1", "i": i, "n": "note_samples", "v": v})
+    return out
+
+
+def apply_sampler_edit(mod, e):
+    from checks import c16
+
+    k = e["k"]
+    if k == "smp_field":
+        s_, f, v = mod.samples[e["i"]], e["n"], e["v"]
+        if f == "loop_type":
+            v = mod.LoopType(v)
+        elif f == "format":
+            v = mod.Format(v)
+        elif f == "channels":
+            v = mod.Channels(v)
+        setattr(s_, f, v)
+    elif k == "smp_loop":
+        s_ = mod.samples[e["i"]]
+        s_.loop_type, s_.loop_sustain = mod.LoopType(e["lt"]), e["sus"]
+    elif k == "smp_drop":
+        mod.samples[e["i"]] = None
+    elif k == "env_field":
+        env = c16.get_env(mod, e["e"])
+        v = e["v"]
+        setattr(env, e["n"], [tuple(p) for p in v] if e["n"] == "points" else v)
+    elif k == "map1":
+        keys = list(mod.note_samples.keys())
+        mod.note_samples[keys[e["i"]]] = e["v"]
 
 
 def project_edits(obj):
@@ -80,7 +149,12 @@ def project_edits(obj):
     for pi, pat in enumerate(obj.patterns):
         if pat is None:
             continue
-        if hasattr(pat, "data"):
+        if hasattr(pat, "tracks"):
+            out.append({"k": "pclear", "p": pi, "n": "clear", "then": [61, 5, 1, 0, 0]})
+            out.append({"k": "pclear", "p": pi, "n": "clear", "then": None})
+            out.append({"k": "pbulk", "p": pi, "n": "set_via_fn"})
+            out.append({"k": "pbulk", "p": pi, "n": "set_via_gen"})
+            out.append({"k": "praw", "p": pi, "n": "raw_data"})
             out.append({"k": "cell", "p": pi, "l": 0, "t": 0, "c": [61, 129, 2, 0x0107, 0x8001]})
             out.append({"k": "cell", "p": pi, "l": pat.lines - 1, "t": pat.tracks - 1, "c": [128, 0, 0, 0, 0]})
             out.append({"k": "pattr", "p": pi, "n": "name", "v": "pn"})
@@ -105,6 +179,26 @@ def apply_edit(obj, mi, e):
         n.note, n.vel, n.module, n.ctl, n.val = rv.NOTECMD(c[0]), c[1], c[2], c[3], c[4]
     elif k == "pattr":
         setattr(obj.patterns[e["p"]], e["n"], e["v"])
+    elif k == "pclear":
+        pat = obj.patterns[e["p"]]
+        pat.clear()
+        if e["then"]:
+            n = pat.data[pat.lines - 1][0]
+            c = e["then"]
+            n.note, n.vel, n.module, n.ctl, n.val = rv.NOTECMD(c[0]), c[1], c[2], c[3], c[4]
+    elif k == "pbulk":
+        pat = obj.patterns[e["p"]]
+        if e["n"] == "set_via_fn":
+            pat.set_via_fn(lambda p_, l, t: rv.Note(note=rv.NOTECMD(1 + (l + t) % 100), vel=1 + t))
+        else:
+            def gen(p_, data):
+                yield 0, 0, rv.Note(note=rv.NOTECMD.C5, vel=77, module=1)
+            pat.set_via_gen(gen)
+    elif k == "praw":
+        pat = obj.patterns[e["p"]]
+        pat.raw_data = bytes((i * 7 + 3) % 120 if i % 8 == 0 else (i % 100 if i % 8 == 1 else 0) for i in range(pat.lines * pat.tracks * 8))
+    elif k in ("smp_field", "smp_loop", "smp_drop", "env_field", "map1"):
+        apply_sampler_edit(obj.modules[mi] if mi is not None else obj.module, e)
     else:
         mod = obj.modules[mi] if mi is not None else obj.module
         c17.apply_inplace(mod, e)
@@ -118,10 +212,12 @@ def check_edit(src, data, mi, e):
     """Returns (status, violations)."""
     case = {"src": src, "module": mi, "edit": e}
     ek = e["k"] + ":" + str(e.get("n") or e.get("p") or e.get("e") or "")
+    # s0 is observed on a SEPARATE load of the same bytes: the object that is edited must not have been
+    # touched by the harness before the edit (an observation could e.g. trigger a lazy decode)
+    s0 = S.snapshot(C.load_bytes(data))
     obj = C.load_bytes(data)
-    s0 = S.snapshot(obj)
     mtype = (obj.modules[mi].mtype if mi is not None else getattr(getattr(obj, "module", None), "mtype", None)) \
-        if e["k"] not in ("pfield", "cell", "pattr") else "Project"
+        if e["k"] not in PROJECT_LEVEL else "Project"
     key = {"type": mtype, "edit": ek}
     try:
         apply_edit(obj, mi, e)
@@ -133,7 +229,7 @@ def check_edit(src, data, mi, e):
         return "no-change", []
     vs = []
     # (3) locality
-    if e["k"] in ("pfield", "cell", "pattr"):
+    if e["k"] in PROJECT_LEVEL:
         outside = [x for x in d01 if x[0].startswith("modules[") or x[0].startswith("module.")]
     else:
         pref = module_path(mi)
